@@ -464,14 +464,26 @@ w('''// The contract object of an ERC-20 precompile: built with an EMPTY decode 
 //@   modifies nothing
 //@   ensures[C10.contract_object] typeof(c) == type(*erc20CustomPrecompiledContract) && fresh(payload(c)) && unbox(c, type(*erc20CustomPrecompiledContract)).cacheErc20Metadata == nil && unbox(c, type(*erc20CustomPrecompiledContract)).metadata.TypedMeta == metadata.TypedMeta && unbox(c, type(*erc20CustomPrecompiledContract)).metadata.Name == metadata.Name && unbox(c, type(*erc20CustomPrecompiledContract)).keeper.storeKey == keeper.storeKey && unbox(c, type(*erc20CustomPrecompiledContract)).keeper.bankKeeper == keeper.bankKeeper
 //@   ensures[C10.eleven_methods] len(unbox(c, type(*erc20CustomPrecompiledContract)).executors) == 11
+//@   ensures[C17.erc20_object_keeps_record] unbox(c, type(*erc20CustomPrecompiledContract)) != nil && unbox(c, type(*erc20CustomPrecompiledContract)).metadata.CustomPrecompiledType == metadata.CustomPrecompiledType && bytes(unbox(c, type(*erc20CustomPrecompiledContract)).metadata.Address) == bytes(metadata.Address) && len(unbox(c, type(*erc20CustomPrecompiledContract)).metadata.Address) == len(metadata.Address) && unbox(c, type(*erc20CustomPrecompiledContract)).metadata.Disabled == metadata.Disabled && (forall j int :: (0 <= j && j < 11) ==> unbox(c, type(*erc20CustomPrecompiledContract)).executors[j] != nil)
 //@   panics never
 
 // NewCustomPrecompiledContract: a record of type 1 / 2 / 3 gives the ERC-20 / staking / bech32 contract object; any other
 // type panics (no contract object exists for an unknown type).
 //@ func NewCustomPrecompiledContract(metadata cpctypes.CustomPrecompiledContractMeta, keeper Keeper) (c CustomPrecompiledContractI)
+//@   modifies nothing
 //@   ensures[C17.contract_of_type] (metadata.CustomPrecompiledType == 1 ==> typeof(c) == type(*erc20CustomPrecompiledContract)) && (metadata.CustomPrecompiledType == 2 ==> typeof(c) == type(*stakingCustomPrecompiledContract)) && (metadata.CustomPrecompiledType == 3 ==> typeof(c) == type(*bech32CustomPrecompiledContract))
 //@   ensures[C17.known_types_only] 1 <= metadata.CustomPrecompiledType && metadata.CustomPrecompiledType <= 3
 ''')
+# the contract object carries the record it was built from, unchanged, and a non-empty list of non-nil executors
+def OBJ_KEEPS(c, T, m):
+    u = f'unbox({c}, type(*{T}))'
+    return f'(typeof({c}) == type(*{T}) ==> ({u} != nil && {u}.metadata.CustomPrecompiledType == {m}.CustomPrecompiledType && bytes({u}.metadata.Address) == bytes({m}.Address) && len({u}.metadata.Address) == len({m}.Address) && {u}.metadata.Name == {m}.Name && {u}.metadata.TypedMeta == {m}.TypedMeta && {u}.metadata.Disabled == {m}.Disabled && len({u}.executors) > 0 && (forall j int :: (0 <= j && j < len({u}.executors)) ==> {u}.executors[j] != nil)))'
+CPC_TYPES = ['erc20CustomPrecompiledContract', 'stakingCustomPrecompiledContract', 'bech32CustomPrecompiledContract']
+for T in CPC_TYPES:
+    w(f'//@   ensures[C17.object_keeps_record_{T[:-len("CustomPrecompiledContract")]}] {OBJ_KEEPS("c", T, "metadata")}')
+w('//@   ensures c != nil && fresh(payload(c))')
+w('//@   panics[C17.unknown_type_panics] only_if !(1 <= metadata.CustomPrecompiledType && metadata.CustomPrecompiledType <= 3)')
+w()
 
 # ---- read-only staking executors (C12 clause (b)) ---------------------------------------------------------------
 GHOST_WORLD = ['bankBal', 'bankSupply', 'authVersion', 'evlog', 'kvHas', 'kvVal', 'acctSeq', 'acctExists', 'stakingVersion', 'distVersion'] + LOGVARS[:-1]
@@ -492,22 +504,22 @@ def ro_staking(t, cexpr, name, req='', cache=False, dist=False):
     if cache:
         mods.append(f'{cexpr}.cacheStakingMetadata')
     if dist:
-        # the querier runs on a cache context (fresh layer, prelude/47_cpc2_cachectx.spec): the only entries written are
-        # those of a layer id that was not handed out before the call
+        # the querier runs on a cache context (a child layer, prelude/40_statedb_context.spec: one level deeper than the
+        # call's layer): the only entries written are those of that child
         mods.append('distVersion')
-        mods.append('layerLive')
     w('//@   modifies ' + (', '.join(mods) if mods else 'nothing'))
     if dist:
         w(f'//@   ensures[C12.ro_world_unchanged] {WORLD_SAME_NODIST}')
-        w('//@   ensures[C12.ro_distribution_unchanged] distVersion[layer(env.ctx)] == old(distVersion[layer(env.ctx)]) && (forall l int :: old(layerLive[l]) ==> distVersion[l] == old(distVersion[l]))')
+        w('//@   ensures[C12.ro_distribution_unchanged] distVersion[layer(env.ctx)] == old(distVersion[layer(env.ctx)]) && (forall l int :: lyrDepth(l) <= lyrDepth(layer(env.ctx)) ==> distVersion[l] == old(distVersion[l]))')
     else:
         w(f'//@   ensures[C12.ro_world_unchanged] {WORLD_SAME}')
     w()
 w('''// rewardOf / rewardsOf / balanceOf read the pending rewards through the x/distribution gRPC querier, which WRITES
 // (IncrementValidatorPeriod). Clause C12.ro_distribution_unchanged is the part of "a read-only method writes nothing" that
-// concerns x/distribution: the x/distribution state of the call's own layer, and of every store layer that existed when the
-// call started, is unchanged (the only entries that may change belong to a layer created during the call and never
-// written back). It FAILS when the querier is run on the live context (finding F-cpc-2, docs/findings-cpc.md); it holds
+// concerns x/distribution: the x/distribution state of the call's own layer, and of every store layer that is not deeper
+// than it (the layer itself, all its ancestors — i.e. every layer whose content can still be committed — and their
+// siblings), is unchanged: the only entries that may change belong to a child layer created during the call and never
+// written back. It FAILS when the querier is run on the live context (finding F-cpc-2, docs/findings-cpc.md); it holds
 // when the querier runs on a cache context whose write function is dropped (fix candidate, docs/findings-cpc2.md).''')
 ro_staking('stakingCustomPrecompiledContractRoRewardOf', SC, 'rewardOf', dist=True)
 ro_staking('stakingCustomPrecompiledContractRoRewardsOf', SC, 'rewardsOf', dist=True)
